@@ -238,6 +238,8 @@ def fresh_of_type(st, name, ty, inputs=None):
         v = fresh_bv(name, t[1])
     elif k == "none":
         v = None
+    elif k == "ilist":
+        v = SList([fresh_int("%s[%d]" % (name, i)) for i in range(t[1])], "i")
     elif k == "flist":
         v = SList([fresh_float("%s[%d]" % (name, i)) for i in range(t[1])], "f")
     elif k == "arr":
